@@ -153,7 +153,14 @@ def _chain(b: Builder, h: str, state, profile, H: int, depth: int) -> str:
             skip = h
             inner = {"budget": rng.randint(1, 3), "n_res": state["n_res"] if rng.random() < 0.3 else 0}
             state["n_res"] -= inner["n_res"]
-            br = _step(b, skip, profile, H, force_mapped=True)
+            r2 = rng.random()
+            if r2 < 0.08:
+                # the branch's first op takes the skip tensor in TWO argument slots: x + f(x * x)
+                br = _step(b, b.op("mul", [skip, skip], b.shape(skip)), profile, H, force_mapped=True)
+            elif r2 < 0.14:
+                br = b.op("sdpa", [skip, skip, skip], b.shape(skip))  # ... in three: x + attention(x, x, x)
+            else:
+                br = _step(b, skip, profile, H, force_mapped=True)
             br = _chain(b, br, inner, profile, H, depth + 1)
             state["n_res"] += inner["n_res"]
             ins = [br, skip] if rng.random() < 0.5 else [skip, br]
